@@ -18,7 +18,8 @@ TARGETS = ["drv_loader"]
 DRIVER_ROOTS = ["Driver/Loader.lean"]
 GENERATED = []
 RULE = ("case = (real directory chain of depth <=4 in a temporary directory, each level holding one of: nothing / name.py / "
-        "name/__init__.py / both / a bare name/ directory without __init__.py; a collection name out of two; a start level; "
+        "name/__init__.py / both / a bare name/ directory without __init__.py; a collection name out of three, one of "
+        "them containing a dot (`a.b`: module a.b.py, package a.b/ whose __init__ imports its sibling plainly); a start level; "
         "a start form: absolute, absolute with trailing separator, relative from an ancestor (os.chdir), relative with ./ and "
         "trailing separator, ../.. from a deeper directory, the absolute path of a deeper directory followed by /../.. (both `..` forms "
         "preferably step out of a directory that holds a candidate), no start at all (cwd)).  Directories named like the collection: "
@@ -54,7 +55,7 @@ ASSUMPTIONS = ["POSIX paths; no symlinks on the way up (abspath does not resolve
                "the state of the loader object, the working directory and the filesystem"]
 
 KINDS = ["none", "module", "package", "both", "baredir"]
-NAMES = ["tasks", "mycoll"]
+NAMES = ["tasks", "mycoll", "a.b"]  # the last one: a collection name containing a dot (module `a.b.py`, package `a.b/`)
 FORMS = ["abs", "trailing", "rel", "dotrel", "relup", "absup", "none"]
 
 
@@ -525,7 +526,7 @@ class Forest:
     """<tmp>/base<i>/d1/d2/...: one or two chains; every level may hold candidates for BOTH collection names"""
 
     def __init__(self, chains):
-        self.kinds = [{n: list(ch[n]) for n in NAMES} for ch in chains]
+        self.kinds = [{n: list(ch.get(n) or ["none"] * len(ch[NAMES[0]])) for n in NAMES} for ch in chains]
         self.root = os.path.realpath(tempfile.mkdtemp(prefix="verif_c20_"))
         try:
             self.dirs = []
@@ -723,7 +724,7 @@ def gen_loader_history(rng):
             steps.append({"op": "start", "loader": j, "cwd": cwd})
         else:
             steps.append({"op": "load" if rng.random() < 0.7 else "find", "loader": j, "cwd": cwd,
-                          "name": NAMES[0] if rng.random() < 0.7 else NAMES[1]})
+                          "name": NAMES[0] if rng.random() < 0.6 else rng.choice(NAMES[1:])})
     return {"kind": "history", "chains": chains, "loaders": loaders, "steps": steps}
 
 
@@ -924,9 +925,9 @@ def run(ctx):
     counter = 0
     layouts = [(k, None) for k in layouts] + named_layouts(rng, ctx.n(70, 1200), 2 if not big else 3)
     for li, (kinds, dirnames) in enumerate(layouts):
-        name = NAMES[li % 2]
+        name = NAMES[li % len(NAMES)]
         if dirnames is not None:
-            dirnames = [name if d == "<name>" else (NAMES[1 - li % 2] if d == "<other>" else d) for d in dirnames]
+            dirnames = [name if d == "<name>" else (NAMES[(li + 1) % len(NAMES)] if d == "<other>" else d) for d in dirnames]
         tree = Tree(kinds, name, dirnames)
         try:
             lay = tree.layout()
@@ -953,6 +954,9 @@ def run(ctx):
                     why = oracle_loader(tree, s, r)
                     out.case(case, any(k != "none" for k in kinds))
                     out.hist["form:" + form] += 1
+                    if "." in name:
+                        out.hist["dotted_name"] += 1
+                        out.hist["dotted_name:" + (r["r"] if r["r"] != "ok" else r["mark"].split(":")[1] if r.get("mark") else "ok?")] += 1
                     out.hist["result:" + (r["r"] if r["r"] != "ok" else r["mark"].split(":")[1] if r.get("mark") else "ok?")] += 1
                     strict, lenient = expected_levels(kinds, s)
                     if strict is not None and any(k != "none" for k in kinds[strict + 1:s + 1] + kinds[:strict]):
@@ -974,7 +978,7 @@ def run(ctx):
         for depth in range(0, (3 if big else 2) + 1):
             for kinds in itertools.product(vk, repeat=depth + 1):
                 for s in range(depth + 1):
-                    case = {"kind": "virtual", "kinds": list(kinds), "name": NAMES[(depth + s) % 2], "start": s}
+                    case = {"kind": "virtual", "kinds": list(kinds), "name": NAMES[(depth + s) % len(NAMES)], "start": s}
                     dirs, chain = vcase_dirs(case)
                     for startarg, cwd in ((chain[s], "/"), (posixpath.relpath(chain[s], chain[s // 2]), chain[s // 2])):
                         r = vfind(dirs, startarg, case["name"], cwd)
